@@ -240,6 +240,6 @@ def oracle(net, stats):
 
 
 PARTS = [
-    Part("jacobian", strategy=gen_net.lin_network, oracle=oracle, n={"quick": 1500, "thorough": 60000},
+    Part("jacobian", strategy=gen_net.lin_network, oracle=oracle, n={"quick": 8000, "thorough": 60000},
          sample=lambda net: nm.gkf_text(net)[:1500]),
 ]
